@@ -10,6 +10,7 @@ usage: selftest/run.py [prop ...] [-k substring]
 import json, glob, os, subprocess, sys, tempfile, shutil, time
 V = '/verif'
 args = [a for a in sys.argv[1:] if not a.startswith('-')]
+focus = '--focus' in sys.argv   # fast mode: verify only the function named by the mutant's "obligation" field
 kfilter = None
 if '-k' in sys.argv:
     kfilter = sys.argv[sys.argv.index('-k') + 1]
@@ -47,7 +48,8 @@ for f in files:
                 bad += 1
                 continue
         t0 = time.time()
-        r = subprocess.run([f'{V}/bin/gvc', 'check', '-repo', tmp, '-no-evidence', '-replay-dir', tmp + '/.replays', prop],
+        extra = ['-focus', m['obligation']] if (focus and m.get('obligation') and m['expect'] == 'violation' and not m.get('nofocus')) else []
+        r = subprocess.run([f'{V}/bin/gvc', 'check', '-repo', tmp, '-no-evidence', '-replay-dir', tmp + '/.replays'] + extra + [prop],
                            capture_output=True, text=True)
         viol = [l for l in r.stdout.splitlines() if l.startswith('VIOLATION') or l.startswith('  failed obligation')]
         got = 'violation' if r.returncode != 0 else 'pass'
